@@ -82,8 +82,8 @@ CFG = {
                  Postfix='{}', Calls='CodeCalls', Parens='FALSE',
                  counts=dict(nopnd=3, nref=1, nbin=0, npre=0, npost=0,
                              calls=('ROW(', 'OFFSET(', 'LEN('), parens=False)),
-    'sim': dict(Operands='AllOperands', Binary='AllBinary', Prefix='{"u-", "u+"}',
-                Postfix='{"%"}', Calls='AllCalls', Parens='TRUE', counts=None),
+    'sim': dict(Operands='SimOperands', Binary='AllBinary', Prefix='{"u-", "u+"}',
+                Postfix='{"%"}', Calls='SimCalls', Parens='TRUE', counts=None),
     'ref': dict(Operands='RefOperands', Binary='RefBinary', Prefix='{"u-"}',
                 Postfix='{}', Calls='AllCalls', Parens='TRUE', counts=None),
 }
